@@ -18,7 +18,7 @@ REPLAY_BOUNDS = {
     'dtree': 'DTree::from_cnf + VTree::from_dtree on 10 fixed CNFs with independent components / unused labels and 700 seeded random CNFs over 2-6 variables (half connected through one clause over all variables, half arbitrary) with random elimination orders over 0..largest label: leaves = clauses, vars = union of children, cutset formula, vtree leaves = CNF variables',
     'hasher': 'CnfHasher new / push / decide / pop / hash: 2 fixed and 600 seeded random histories of 4-15 operations on CNFs with 2-4 variables and 1-5 clauses of <= 3 literals (prime product < 2^128), partial model kept in step with the decisions; every pair of visited states that falsify no clause: equal hash <=> the unsatisfied non-unit clauses restricted to unassigned literals coincide clause by clause',
     'vtree': 'VTreeManager::new / var_index / vtree / lca / is_prime_index / is_prime_var / num_vars on every binary tree shape x every labelling with 1-4 leaves (dense labels 0..n-1) and every shape with 3 seeded labellings for 5 and 6 leaves (303 trees), all pairs of in-order indices, against a direct walk of the shape',
-    'poly': 'Polynomial<FiniteField<U32_TINY>>: 403 pairs of polynomials with 0..33 coefficients (seeded random), + and * against the schoolbook definition',
+    'poly': 'Polynomial<FiniteField<U32_TINY>>: 403 pairs of polynomials with 0..33 coefficients (seeded random), + and * against the schoolbook definition, and the semiring laws (+,* commutative and associative, identities, annihilation, distributivity) as == on the results, third operand = second reversed',
 }
 
 
@@ -48,7 +48,6 @@ prop('C01',
      not_covered=[
          'RobddBuilder::new_label / new_var: interior mutation of the order cannot be expressed through the RefCell stub; covered only by the composition of VarOrder::new_last (proved: old positions unchanged) with lemma_ordered_extend (proved) [+ bounded check `bdd`: new_var on 7 orders]',
          'condition_model / cond_model_h: loop over PartialModel::assignment_iter (iterator adapter chain); its body is `condition`, which is proved [+ bounded check `bdd`]',
-         'and_lst / or_lst (iterator fold over the proved and / or) [bounded check `bdd` only]',
          'RobddBuilder::new, VarOrder::linear_order (iterator chain)',
          '"a diagram keeps denoting the same function afterwards": by construction (ptr_sem depends only on immutable arena nodes; A-bump, A-unsafe), not a discharged obligation',
      ])
@@ -79,7 +78,7 @@ prop('C13',
                  'ring laws are lemmas over the operator specifications.  Truncated polynomials (unit poly): zero, one, + and * against their definitions, generic in the coefficient semiring.  Boolean semiring and the real / expected-utility lattice operations: loop-free Kani harnesses over the whole bit domain.',
      not_covered=[
          'RationalSemiring (external crate `rational`; its field is private, so only values built from one()/zero() are reachable) [bounded check `lattice` only: naturals 0..4]',
-         'the semiring LAWS of truncated polynomials: unit poly proves that zero / one / + / * compute the definition (coefficient-wise sum; truncated convolution in the order the code adds the terms) for any coefficient semiring, not that this definition is associative / distributive (that needs the laws of the coefficient type)',
+         'the semiring LAWS of truncated polynomials: unit poly proves that zero / one / + / * compute the definition (coefficient-wise sum; truncated convolution in the order the code adds the terms) for any coefficient semiring, not that this definition is associative / distributive (that needs the laws of the coefficient type) [bounded check `poly` only: the laws as == on 403 operand pairs over FiniteField<U32_TINY>]',
          'real +,* beyond integers |x| <= 8 and expected-utility / complex +,* beyond integers |x| <= 4 (domain-bounded Kani harnesses, labelled as such; floating-point addition is not associative in general); the multiplication associativity / distributivity harnesses of the latter two run in the thorough tier only (50-100 s)',
      ])
 
